@@ -18,7 +18,7 @@
 (***************************************************************************)
 EXTENDS Naturals, Sequences, FiniteSets, TLC, Json, IOUtils
 
-CONSTANTS Mode      \* "gen17" | "chk17" | "gen16" | "chk16" | "chk18"
+CONSTANTS Mode      \* "gen17" | "chk17" | "gen16" | "chk16" | "gen18" | "chk18"
 
 VARIABLES phase
 vars == <<phase>>
@@ -105,12 +105,24 @@ ValidTokenPasses(o) ==
 \* o = [endpoint, op ("read" | "write" | "list"), ns (namespace really addressed), spelling, priv, allowed, d, leaked]
 \* allowed = whitelisted and not blacklisted (computed by the harness from the privilege shape with the
 \* default-namespace mapping; re-derived here from the shape)
-InSet(isAll, lst, ns) == isAll \/ ns \in lst
+InSet(isAll, lst, ns) == isAll \/ ns \in Range(lst)      \* (lists arrive as JSON arrays)
 Allowed18(p, ns) == InSet(p.wl_all, p.wl, ns) /\ ~InSet(p.bl_all, p.bl, ns)
+\* "cannot read or change": nothing of the forbidden namespace appears in the answer and nothing of it changes.
+\* (Several list/download endpoints answer a forbidden namespace with an EMPTY result instead of a refusal;
+\* that reveals and changes nothing and is accepted - the decision itself is recorded in the evidence.)
 NoForeignAccess(o) ==
-    (~Allowed18(o.priv, o.ns)) => (o.d # "handled_ok" /\ ~o.changed /\ ~o.leaked)
+    (~Allowed18(o.priv, o.ns)) => (~o.changed /\ ~o.leaked)
 AllowedWorks(o) ==
     (Allowed18(o.priv, o.ns) /\ o.spelling = "explicit") => o.d # "refused"
+
+\* the privilege shapes and namespace spellings of the C18 product
+\* (the id of the default namespace is the empty string; it is treated like any other namespace)
+WlShapes == {[all |-> TRUE, lst |-> {}], [all |-> FALSE, lst |-> {}], [all |-> FALSE, lst |-> {"nsA"}],
+             [all |-> FALSE, lst |-> {""}], [all |-> FALSE, lst |-> {"nsA", ""}]}
+BlShapes == {[all |-> FALSE, lst |-> {}], [all |-> TRUE, lst |-> {}], [all |-> FALSE, lst |-> {"nsA"}],
+             [all |-> FALSE, lst |-> {""}], [all |-> FALSE, lst |-> {"nsB"}]}
+\* (namespace really addressed, spelling used in the request)
+NsSpellings == {<<"nsA", "explicit">>, <<"nsB", "explicit">>, <<"", "omitted">>, <<"", "empty">>, <<"", "public">>}
 
 \* ------------------------------------------------------------------ generation / checking harness
 Routes == ndJsonDeserialize(IOEnv.ROUTES)
@@ -128,6 +140,11 @@ Gen16 == (Mode = "gen16" /\ phase = "done") =>
     \A i \in 1..Len(Routes) : \A m \in Methods16 :
         PrintT(<<"REPLAY", ToJson([path |-> Routes[i].path, canon |-> Routes[i].canon, segs |-> Routes[i].segs,
                                    spelling |-> Routes[i].spelling, method |-> m])>>)
+
+Gen18 == (Mode = "gen18" /\ phase = "done") =>
+    \A i \in 1..Len(Routes) : \A w \in WlShapes : \A b \in BlShapes : \A nsp \in NsSpellings :
+        PrintT(<<"REPLAY", ToJson([endpoint |-> Routes[i].endpoint, ns |-> nsp[1], spelling |-> nsp[2],
+                                   priv |-> [wl_all |-> w.all, wl |-> w.lst, bl_all |-> b.all, bl |-> b.lst]])>>)
 
 CanonOf(o) == CHOOSE c \in Range(Obs) : c.spelling = "canonical" /\ c.canon = o.canon /\ c.method = o.method
 
